@@ -265,9 +265,33 @@ class StmtMixin:
                 tc = truth(cv)
             st_t, st_f = st1.assume(tc), st1.assume(z3.Not(tc))
             if self.feasible(st_t):
-                yield from self.exec_block(s.body, st_t)
+                yield from self.exec_block(s.body, self.narrow_locals(st_t, s.test, True))
             if self.feasible(st_f):
-                yield from self.exec_block(s.orelse, st_f)
+                yield from self.exec_block(s.orelse, self.narrow_locals(st_f, s.test, False))
+
+    def narrow_locals(self, st, test, positive):
+        """Flow-sensitive typing: in the branch where `x is not None` holds, the local x loses its Optional."""
+        if isinstance(test, ast.UnaryOp) and isinstance(test.op, ast.Not):
+            return self.narrow_locals(st, test.operand, not positive)
+        if isinstance(test, ast.BoolOp):
+            if (isinstance(test.op, ast.And) and positive) or (isinstance(test.op, ast.Or) and not positive):
+                for v in test.values:
+                    st = self.narrow_locals(st, v, positive)
+            return st
+        name, nonnull = None, None
+        if isinstance(test, ast.Compare) and len(test.ops) == 1 and isinstance(test.left, ast.Name) \
+                and isinstance(test.comparators[0], ast.Constant) and test.comparators[0].value is None:
+            if isinstance(test.ops[0], ast.IsNot):
+                name, nonnull = test.left.id, positive
+            elif isinstance(test.ops[0], ast.Is):
+                name, nonnull = test.left.id, not positive
+        elif isinstance(test, ast.Name) and positive:
+            name, nonnull = test.id, True
+        if name and nonnull:
+            cur = st.frame.locals.get(name)
+            if isinstance(cur, V) and isinstance(cur.t, TOpt):
+                return st.with_local(name, opt_val(cur))
+        return st
 
     def st_Match(self, s, st):
         for st1, subj in self.ev(s.subject, st):
